@@ -189,6 +189,8 @@ func (k Keeper) AddDeposit(ctx sdk.Context, receiverAddr, senderAddr sdk.AccAddr
 
 		// stream expired or new. Calculate from now
 		depositZeroTime = addSeconds(nowTime, durationExtension)
+		// the stream (re)starts now: nothing has flowed while it was empty
+		stream.LastOutflowTime = nowTime
 	} else {
 		// stream not expired. Add to current deposit zero time
 		depositZeroTime = addSeconds(stream.DepositZeroTime, durationExtension)
